@@ -57,6 +57,7 @@ def canonical_dsdl(pydsdl, t) -> str:
 
 class C03(Check):
     PROP = "C03"
+    CRASH_ORACLE = "C03.mirror"
     RULE = ("each run = one generated root (messages and services, structures and unions, fields / paddings / constants in any "
             "mix, @deprecated, sealed and delimited, header comments, same-line and following-line attribute comments) rendered "
             "under 4-7 formatting vectors: final newline present/absent, LF/CRLF, runs of blanks/tabs between tokens and inside "
